@@ -31,7 +31,11 @@ def main():
     wt = "/tmp/recheck-%s-%d" % (a.sid, os.getpid())
     rc, o = sh("git -C /repo worktree add --detach %s HEAD" % wt)
     try:
-        rc, o = sh("git -C %s apply %s" % (wt, os.path.join(sdir, "patch.diff")))
+        # patch_rebased.diff: the same change carried over to the current /repo HEAD when a later fix touched the same lines
+        pf = os.path.join(sdir, "patch_rebased.diff")
+        if not os.path.exists(pf):
+            pf = os.path.join(sdir, "patch.diff")
+        rc, o = sh("git -C %s apply %s" % (wt, pf))
         if rc != 0:
             print("patch does not apply: " + o[-400:])
             return 2
